@@ -164,6 +164,29 @@ func ammoCases(rng *rand.Rand, n int) []Case {
 			out = append(out, Case{Kind: "ammo", Format: format, Mut: "no-entries+unbounded", Text: []byte(text)})
 		}
 	}
+	// files made of nothing but degenerate entries — zero-sized blocks, empty objects, lines that
+	// hold a size or a tag and nothing else — read with passes: 0 and with passes: 1, with and
+	// without preloading: whether such an entry is refused or handed on, the provider must not
+	// read the file again and again without ever delivering or failing
+	for format, texts := range map[string][]string{
+		"raw":      {"0\n", "0 tag\n0\n", "0\n\n0 t\n\n", "0 tag"},
+		"uripost":  {"0\n", "0 \n", "0  tag\n", "0 /\n0 /\n"},
+		"uri":      {" tag\n", "\ttag only\n \n"},
+		"jsonline": {"{}\n", "{}\n{}\n", "[{}]", "[{},{}]\n", "null\n", "[null]\n"},
+		"grpcjson": {"{}\n", "{}\n{}\n", "null\n"},
+		"json":     {"{}\n", "null\n", "[]\n[]\n"},
+	} {
+		for _, text := range texts {
+			for _, pre := range []bool{false, true} {
+				if pre && (format == "grpcjson" || format == "json") {
+					continue
+				}
+				for _, mut := range []string{"degenerate-entries", "degenerate-entries+unbounded"} {
+					out = append(out, Case{Kind: "ammo", Format: format, Mut: mut, Text: []byte(text), Preload: pre})
+				}
+			}
+		}
+	}
 	// a filter that lets nothing through (chosencases naming a tag no entry has) over well-formed
 	// and over cut-short files, with and without preloading, bounded and unbounded: the outcome is
 	// an error or an empty delivery, never a crash and never an endless read
